@@ -447,6 +447,11 @@ func (vc *VC) noteDivLit(c Term) {
 const goDivDef = `(assert (forall ((a Int) (b Int)) (! (= (go_div a b) (ite (>= a 0) (ite (> b 0) (div a b) (- (div a (- b)))) (ite (> b 0) (- (div (- a) b)) (div (- a) (- b))))) :pattern ((go_div a b)))))
 (assert (forall ((a Int) (b Int)) (! (= (go_mod a b) (- a (* b (go_div a b)))) :pattern ((go_mod a b)))))`
 
+// sidxT: absolute index of element i of a slice with offset off. An uninterpreted function
+// (defined by a triggered axiom in the prelude) rather than (+ off i): arithmetic inside
+// quantifier patterns is normalised away by the solvers and then never matches.
+func sidxT(off, i Term) Term { return "(sidx " + off + " " + i + ")" }
+
 func sref(s Term) Term { return "(Slice_ref " + s + ")" }
 func soff(s Term) Term { return "(Slice_off " + s + ")" }
 func slen(s Term) Term { return "(Slice_len " + s + ")" }
@@ -516,6 +521,6 @@ func (vc *VC) bseq(arr, off, n Term) Term {
 	}
 	vc.bseqSrc[b] = [3]Term{arr, off, n}
 	vc.assume(fmt.Sprintf("(=> (>= %s 0) (= (Bytes_len %s) %s))", n, b, n))
-	vc.assume(fmt.Sprintf("(forall ((i Int)) (! (=> (and (<= 0 i) (< i %s)) (= (Bytes_at %s i) (select %s (+ %s i)))) :pattern ((Bytes_at %s i))))", n, b, arr, off, b))
+	vc.assume(fmt.Sprintf("(forall ((i Int)) (! (=> (and (<= 0 i) (< i %s)) (= (Bytes_at %s i) (select %s (sidx %s i)))) :pattern ((Bytes_at %s i))))", n, b, arr, off, b))
 	return b
 }
